@@ -22,6 +22,8 @@ pub fn check(c: &Case) -> CheckResult {
     if (c.x / c.unit) >> 32 != 0 {
         return Ok(Pass::new(false).class("outside-domain")); // whole seconds do not fit 32 bits
     }
+    // (whatever the constructors log is formatted, as a logger that prints would do)
+    crate::oracle::format_logs(true);
     let name = if c.unit == 1000 { "from_ms" } else { "from_us" };
     let ts = guard(|| {
         if c.unit == 1000 {
@@ -523,6 +525,7 @@ pub fn run(run: &Run) {
             return;
         }
         let factor = 1_000_000 / unit;
+        crate::oracle::format_logs(true);
         let ok = guard(|| {
             let mut good = true;
             let mut x = from;
